@@ -45,7 +45,7 @@ def check_case(ctx, case):
     mode = case.get("mode", "tree")
     names = S.variables(s)
     ctx.count("cases")
-    e = S.build(s, mode)            # one long-lived object per case: later points see the memo left by earlier ones
+    e, parts = C.build_with_parts(s, mode)   # one long-lived object per case: later points see the memo left by earlier ones
     firsts = []
     for pj in case["points"]:
         p = S.point_from_json(pj)
@@ -90,7 +90,11 @@ def check_case(ctx, case):
     for i, (p, out, st) in enumerate(reversed(firsts)):
         if vs and len(firsts) > 1:
             q = firsts[i % len(firsts)][0]
-            M.call(lambda: sm.Partial(e, vs[0]).at(S.make_point(q)))
+            if parts and i % 2 == 1:
+                # a sub-expression the caller also holds, evaluated as a root of its own at another point
+                M.call(parts[(i * 7) % len(parts)].at, S.make_point(q))
+            else:
+                M.call(lambda: sm.Partial(e, vs[0]).at(S.make_point(q)))
         again = M.call(e.at, S.make_point(p))
         ctx.count("revisits")
         if again.bits() != out.bits():
